@@ -52,8 +52,16 @@ func sshKeys() *sshMaterial {
 
 // openSSHTunnel: `ssh -R :80:127.0.0.1:8080 v0@gateway tcp --proxy_name <name> --remote_port <port>`.
 // up reports whether the tunnel's proxy started listening; authErr is the ssh-level refusal, if any.
-func openSSHTunnel(gwAddr string, signer ssh.Signer, name string, remotePort int) (closeFn func(), up bool, authErr error) {
-	cc, err := ssh.Dial("tcp", gwAddr, &ssh.ClientConfig{User: "v0", Auth: []ssh.AuthMethod{ssh.PublicKeys(signer)},
+func openSSHTunnel(gwAddr string, signer ssh.Signer, name string, remotePort int, extraArgs ...string) (closeFn func(), up bool, authErr error) {
+	wait := 8 * time.Second
+	if len(extraArgs) > 0 && extraArgs[0] == "--expect-refusal" { // harness marker, not part of the command
+		wait, extraArgs = 1500*time.Millisecond, extraArgs[1:]
+	}
+	var auth []ssh.AuthMethod // nil signer: the ssh "none" method only (a gateway without authorized_keys accepts it)
+	if signer != nil {
+		auth = []ssh.AuthMethod{ssh.PublicKeys(signer)}
+	}
+	cc, err := ssh.Dial("tcp", gwAddr, &ssh.ClientConfig{User: "v0", Auth: auth,
 		HostKeyCallback: ssh.InsecureIgnoreHostKey(), Timeout: 10 * time.Second})
 	if err != nil {
 		return func() {}, false, err
@@ -77,10 +85,10 @@ func openSSHTunnel(gwAddr string, signer ssh.Signer, name string, remotePort int
 	if err != nil {
 		return closeFn, false, nil
 	}
-	if err = sess.Start(fmt.Sprintf("tcp --proxy_name %s --remote_port %d", name, remotePort)); err != nil {
+	if err = sess.Start(strings.TrimSpace(fmt.Sprintf("tcp --proxy_name %s --remote_port %d %s", name, remotePort, strings.Join(extraArgs, " ")))); err != nil {
 		return closeFn, false, nil
 	}
-	deadline := time.Now().Add(8 * time.Second)
+	deadline := time.Now().Add(wait)
 	for time.Now().Before(deadline) {
 		if c, err := net.DialTimeout("tcp", fmt.Sprintf("127.0.0.1:%d", remotePort), time.Second); err == nil {
 			c.Close()
